@@ -75,6 +75,7 @@ func main() {
 	runLin(f, res, drv)
 	runStress(f, res)
 	runName(f, res, drv)
+	runServed(f, res, drv)
 	if err := res.Write(f.Out); err != nil {
 		lib.Fatal(err)
 	}
